@@ -175,6 +175,9 @@ class CommandResponse(Response):
                 merge_key = resp.merge_key
             except TypeError:
                 self._untagged.append(resp)
+                if resp.renumbers:
+                    # the same sequence number is another message from here
+                    self._mergeable.clear()
             else:
                 key = (type(resp), merge_key)
                 try:
@@ -233,6 +236,9 @@ class UntaggedResponse(Response):
             response is being written.
 
     """
+
+    #: True if the response changes what later sequence numbers refer to.
+    renumbers: bool = False
 
     def __init__(self, text: MaybeBytes | None = None,
                  code: ResponseCode | None = None, *,
